@@ -191,6 +191,16 @@ CanonKids(N, kids, j, keep, tc, d) ==
 Canon(N, i, keep, tc) == CanonB(N, i, keep, tc, Len(N))
 
 DeepEqual(N, a, b) == Canon(N, a, "all", "exact") = Canon(N, b, "all", "exact")
+
+\* canonical form that also records, per element, the set of declared bindings (round trips: C01, C03, C14)
+RECURSIVE CanonDB(_, _, _), CanonDKids(_, _, _, _)
+CanonDB(N, i, d) ==
+    [v |-> NodeValue(N, i, "exact"), decls |-> DeclsAt(N, i),
+     kids |-> IF d = 0 THEN <<>> ELSE CanonDKids(N, NormKids(N, i), 1, d - 1)]
+CanonDKids(N, kids, j, d) == IF j > Len(kids) THEN <<>> ELSE <<CanonDB(N, kids[j], d)>> \o CanonDKids(N, kids, j + 1, d)
+CanonD(N, i) == CanonDB(N, i, Len(N))
+\* two trees (possibly in different forests) denote the same document
+SameDocument(N, a, M, b) == CanonD(N, a) = CanonD(M, b)
 AdvancedDeepEqual(N, a, b, keep, tc) == Canon(N, a, keep, tc) = Canon(N, b, keep, tc)
 DeepEqualChildren(N, a, b) ==
     LET ka == NormKids(N, a)  kb == NormKids(N, b) IN
